@@ -29,3 +29,16 @@ check("C12", "exploration", "runtime invariant monitor: abstract tree model in l
       "G in {2,4,16,64} goroutines x GOMAXPROCS in {1,2,4,16} racing on the shared pool and ID counter with zero race reports and pairwise distinct IDs.",
       "Harness owns its nodes via the public idr API. The race detector sees only interleavings that occurred.",
       "DESIGN.md section 3 C12")
+
+check("C09", "exploration", "runtime self-differential monitor: transcript under bytes.Reader vs 8 chunked delivery schedules of the same bytes",
+      "Held on every (input, schedule) pair (quick 1.1e4, thorough 5e5) over all seven formats, three encodings, BOM/CRLF/terminator variants, "
+      "well-formed and mutated inputs, multi-line records and records straddling 4 KiB / 8 KiB / 64 KiB buffers: byte-identical results, errors and checksums.",
+      "Chunk reader obeys the io.Reader contract. json/xml 'rough' error line numbers masked, nothing else.",
+      "DESIGN.md section 3 C09")
+
+check("C16", "fault_enumeration", "fault injection through the caller's io.Reader at every byte offset x 3 fault kinds, trace monitor on the Read history",
+      "For every generated input (quick 42, thorough 1050 inputs of all formats) EVERY byte offset is a fault point with persistent, transient and "
+      "data-with-error faults: a non-EOF fatal error surfaces within R+2 Reads, is sticky, and earlier results equal the fault-free run. "
+      "One recorded known finding (old fixed-length by_header_footer, partial header line).",
+      "Faults are errors.New values; a fault the library never reads up to is not counted.",
+      "DESIGN.md section 3 C16")
